@@ -162,6 +162,9 @@ pub fn k_c20_draw_element() {
             // the element is new(le64(first admissible digest)); as_int(new(v)) == v is the Verus
             // theorem C11.f64.as_int_new.identity
             vcheck!("C20.draw.element_is_digest_value", e.inner() == F64::new(used).inner());
+            // the state after the draw: same seed, counter advanced past every candidate examined (so that
+            // the next draw continues the sequence instead of re-examining rejected candidates)
+            vcheck!("C20.draw.state_after", d8(&coin.seed) == s0 && coin.counter == c0 + k as u64);
         },
         Err(_) => {
             vcheck!("C20.draw.no_spurious_error", false);
